@@ -201,6 +201,14 @@ def DiesOut (ll : Nat) (fs : FS) (dir : Str) : Nat → List QEntry → Prop
   | 0, _ :: _ => False
   | d + 1, e :: q => DiesOut ll fs dir d (enqueued (serveAll ll fs dir (e :: q)))
 
+instance decDiesOut (ll : Nat) (fs : FS) (dir : Str) : (d : Nat) → (q : List QEntry) → Decidable (DiesOut ll fs dir d q)
+  | 0, [] => isTrue (by simp [DiesOut])
+  | _ + 1, [] => isTrue (by simp [DiesOut])
+  | 0, _ :: _ => isFalse (by simp [DiesOut])
+  | d + 1, e :: q => by
+    simp only [DiesOut]
+    exact decDiesOut ll fs dir d (enqueued (serveAll ll fs dir (e :: q)))
+
 /-- fuel that suffices for a queue whose nesting is at most `d` deep: the number of entries served -/
 def fuelFor (ll : Nat) (fs : FS) (dir : Str) (d : Nat) (q : List QEntry) : Nat := (served ll fs dir d q).length
 
@@ -241,5 +249,133 @@ theorem queueLoop_gens (ll : Nat) (fs : FS) (dir : Str) (d : Nat) (q : List QEnt
       rw [List.append_nil, List.nil_append] at this
       rw [hf, this, ih _ _ h, cut_append_cut]
       rfl
+
+/-! ## every read card met is served exactly once -/
+
+theorem served_eq_enqueued (ll : Nat) (fs : FS) (dir : Str) (d : Nat) (q : List QEntry)
+    (h : DiesOut ll fs dir d q) :
+    served ll fs dir d q = q ++ enqueued (gens ll fs dir d q) := by
+  induction d generalizing q with
+  | zero =>
+    cases q with
+    | nil => simp [served, gens, enqueued]
+    | cons e q => exact absurd h (by simp [DiesOut])
+  | succ d ih =>
+    cases q with
+    | nil => simp [served, gens, enqueued]
+    | cons e q =>
+      simp only [DiesOut] at h
+      simp only [served, gens, enqueued_append]
+      rw [ih _ h]
+
+/-! ## files opened -/
+
+/-- the paths handed to `open`, in order -/
+def opened : List Event → List Str
+  | [] => []
+  | .openFile p :: t => p :: opened t
+  | _ :: t => opened t
+
+theorem opened_append (a b : List Event) : opened (a ++ b) = opened a ++ opened b := by
+  induction a with
+  | nil => rfl
+  | cons e t ih => cases e <;> simp [opened, ih]
+
+theorem opened_flushInput (cfg : Cfg) (bt : BlockType) (raw : List Str) : opened (flushInput cfg bt raw) = [] := by
+  unfold flushInput
+  split
+  · split
+    · rfl
+    · split <;> rfl
+  · rfl
+
+theorem opened_flushBlock (cfg : Cfg) (st : LState) : opened (flushBlock cfg st).1 = [] := by
+  unfold flushBlock
+  simp only
+  split
+  · rfl
+  · exact opened_flushInput _ _ _
+
+theorem opened_stepData (cfg : Cfg) (st : LState) (line : Str) (c : Bool) (evs1 : List Event) (raw1 : List Str)
+    (h : opened evs1 = []) : opened (stepData cfg st line c evs1 raw1).1 = [] := by
+  unfold stepData
+  split
+  · exact h
+  · split
+    · simp [opened_append, h, opened]
+    · simp only [opened_append, h, List.nil_append]
+      split <;> rfl
+
+theorem opened_stepLine (cfg : Cfg) (st : LState) (l : Str) : opened (stepLine cfg st l).1 = [] := by
+  unfold stepLine
+  simp only
+  split
+  · exact opened_flushBlock _ _
+  · split
+    · exact opened_stepData _ _ _ _ _ _ (opened_flushInput _ _ _)
+    · exact opened_stepData _ _ _ _ _ _ rfl
+
+theorem opened_goLines (cfg : Cfg) (st : LState) (ls : List Str) : opened (goLines cfg st ls) = [] := by
+  induction ls generalizing st with
+  | nil => exact opened_flushBlock _ _
+  | cons l ls ih =>
+    unfold goLines
+    simp only
+    split
+    · exact opened_stepLine _ _ _
+    · rw [opened_append, opened_stepLine, ih]; rfl
+
+theorem opened_readData (cfg : Cfg) (ls : List Str) : opened (readData cfg ls) = [] := opened_goLines _ _ _
+
+theorem opened_serve (ll : Nat) (fs : FS) (dir : Str) (e : QEntry) :
+    opened (serve ll fs dir e) = [joinPath dir e.name] := by
+  unfold serve
+  cases fs (joinPath dir e.name) with
+  | none => rfl
+  | some bytes => simp [opened, opened_readData]
+
+theorem opened_serveAll (ll : Nat) (fs : FS) (dir : Str) (q : List QEntry) :
+    opened (serveAll ll fs dir q) = q.map (fun e => joinPath dir e.name) := by
+  induction q with
+  | nil => rfl
+  | cons e q ih =>
+    simp only [serveAll, List.flatMap_cons, opened_append, opened_serve, List.map_cons] at *
+    rw [ih]; rfl
+
+/-- the paths opened by a cut run are a prefix of those of the whole run -/
+theorem opened_cut_prefix (a : List Event) : opened (cut a) <+: opened a := by
+  induction a with
+  | nil => exact List.prefix_refl _
+  | cons e t ih =>
+    by_cases h : e.isRaise
+    · cases e <;> simp_all [cut, opened, Event.isRaise]
+    · cases e <;> simp_all [cut, opened, Event.isRaise]
+
+/-! ## the first raise -/
+
+def firstRaise : List Event → Option Err
+  | [] => Option.none
+  | .raise e :: _ => some e
+  | _ :: t => firstRaise t
+
+theorem firstRaise_cut (a : List Event) : firstRaise (cut a) = firstRaise a := by
+  induction a with
+  | nil => rfl
+  | cons e t ih => cases e <;> simp_all [cut, firstRaise, Event.isRaise]
+
+theorem firstRaise_append (a b : List Event) :
+    firstRaise (a ++ b) = match firstRaise a with | some e => some e | Option.none => firstRaise b := by
+  induction a with
+  | nil => rfl
+  | cons e t ih => cases e <;> simp_all [firstRaise]
+
+theorem firstRaise_none_iff (a : List Event) : firstRaise a = Option.none ↔ hasRaise a = false := by
+  induction a with
+  | nil => simp [firstRaise, hasRaise]
+  | cons e t ih => cases e <;> simp_all [firstRaise, hasRaise_cons, Event.isRaise]
+
+theorem serve_missing (ll : Nat) (fs : FS) (dir : Str) (e : QEntry) (h : fs (joinPath dir e.name) = Option.none) :
+    serve ll fs dir e = [.openFile (joinPath dir e.name), .raise .fileNotFound] := by
+  unfold serve; rw [h]
 
 end MontePyVerif.Reader
